@@ -8,9 +8,15 @@ HARNESSES = [
       desc="exactly the named counter moves by exactly the sample (ghost counter index), all counter states"),
     H(name="C20.stats_on_gvt", file=F, entry="h_stats_on_gvt", funcs=["stats_on_gvt"], unwindset=UW, kind="proof", timeout=600,
       desc="one sizeof(struct stats_thread) record to the calling thread's file carrying the counters as they were; counters zero afterwards; thread 0 adds one 16-byte node record with the GVT; nothing written without a statistics file (loops are constant)"),
-    H(name="C20.final_write", file=F, entry="h_final_write", funcs=["stats_file_final_write"], unwindset=UW, kind="bounded", bound="1 rank, <= 2 threads", timeout=900,
+    H(name="C20.final_write", file=F, entry="h_final_write", funcs=["stats_file_final_write"], unwindset=UW, kind="bounded", bound="1 rank, <= 3 threads", timeout=900,
       desc="chunk sequence == documented layout: magic(2), metric count(8), Pascal strings, rank count(8), node header(72), size+node array, per thread size+array; nothing else"),
 ]
+HARNESSES.append(
+    H(name="C20.stats_init", file=F, entry="h_stats_init", funcs=["stats_init"], unwindset=UW, kind="proof", timeout=300,
+      desc="the calling thread's temporary file is stored in the calling thread's slot; other slots untouched (loop-free)"))
+HARNESSES.append(
+    H(name="C20.global_fini", file=F, entry="h_global_fini", funcs=["stats_global_fini", "stats_file_final_write"], unwindset=UW + ("h_global_fini.0:5", "stats_global_fini.0:5", "stats_files_receive.0:3"), kind="bounded", bound="1 rank, <= 3 threads", timeout=600,
+      desc="single-rank shutdown: header announces thread and LP counts; the file holds one size-prefixed array per thread after the node array"))
 HARNESSES.append(
     H(name="C20.files_receive", file=F, entry="h_files_receive", funcs=["stats_files_receive"], unwindset=UW, kind="bounded", bound="2 ranks, 1..3 threads on each (independently)", timeout=900, canaries=2,
       desc="the block appended for another rank = its header + exactly (1 + its t_cnt) size-prefixed arrays, independent of the master's thread count"))
